@@ -26,6 +26,10 @@ package main
 //                            certificate and the session records none, or the session records some
 //                            and the policy is NoClientCert (F6)
 //   negResumeReprocessesCerts doResumeHandshake re-runs processCertsFromClient on the recorded certificates
+//   negResumeSuiteGuards     checkForResumption refuses to resume unless the negotiated version is the
+//                            session's, the ClientHello still offers the session's suite, and
+//                            selectCipherSuite finds that suite among c.config.cipherSuites() (the
+//                            configuration in use) with a key type that cipherSuiteOk admits
 //   negEncCertNeedsSigCert   the client appends its encryption certificate only when the
 //                            certificate list already holds the signing certificate (F36)
 
@@ -331,6 +335,32 @@ func emitNegotiate(e *emitter, p *pkg) {
 	g1 = g1 && srcHas(cfr, "needClientCerts := requiresClientCert(c.config.ClientAuth)") &&
 		srcHas(cfr, "sessionHasClientCerts := len(hs.sessionState.peerCertificates) != 0")
 	e.boolean("negResumePolicyGuards", g1 && g2)
+	// … and its version / suite guards
+	gv, gOffer, gLoop, gNil := false, false, false, false
+	for _, st := range allStmts(cfr) {
+		switch s := st.(type) {
+		case *ast.IfStmt:
+			if p.src(s.Body) != "{ return false }" {
+				continue
+			}
+			switch p.src(s.Cond) {
+			case "c.vers != hs.sessionState.vers":
+				gv = true
+			case "!cipherSuiteOk":
+				gOffer = true
+			case "hs.suite == nil":
+				gNil = true
+			}
+		case *ast.RangeStmt:
+			if p.src(s.X) == "hs.clientHello.cipherSuites" && len(s.Body.List) == 1 &&
+				p.src(s.Body.List[0]) == "if "+p.src(s.Value)+" == hs.sessionState.cipherSuite { cipherSuiteOk = true break }" {
+				gLoop = true
+			}
+		}
+	}
+	sargs := callArgs(p, cfr, "selectCipherSuite")
+	gSel := len(sargs) == 3 && sargs[0] == "[]uint16{hs.sessionState.cipherSuite}" && sargs[1] == "c.config.cipherSuites()" && sargs[2] == "hs.cipherSuiteOk"
+	e.boolean("negResumeSuiteGuards", gv && gOffer && gLoop && gNil && gSel && srcHas(cfr, "cipherSuiteOk := false"))
 	reproc := false
 	for _, st := range allStmts(p.funcs["serverHandshakeState.doResumeHandshake"]) {
 		if is, ok := st.(*ast.IfStmt); ok && is.Init != nil && strings.HasPrefix(p.src(is.Init), "err := c.processCertsFromClient(") {
